@@ -57,6 +57,14 @@ func (m *Manager) connect(recursed bool) (err error) {
 	var (
 		active   = true
 		activeMu sync.Mutex
+
+		// Dial starts the transport before it returns: a connection that dies at once
+		// is reported before this method has recorded it. Such a close is kept and
+		// delivered at the end, otherwise the "connected" written below would stick.
+		recorded    bool
+		earlyClose  bool
+		earlyReason eio.Reason
+		earlyErr    error
 	)
 	callbacks := eio.Callbacks{
 		OnPacket: func(packets ...*parser.Packet) {
@@ -80,6 +88,11 @@ func (m *Manager) connect(recursed bool) (err error) {
 		OnClose: func(reason eio.Reason, err error) {
 			activeMu.Lock()
 			if !active {
+				activeMu.Unlock()
+				return
+			}
+			if !recorded {
+				earlyClose, earlyReason, earlyErr = true, reason, err
 				activeMu.Unlock()
 				return
 			}
@@ -123,6 +136,16 @@ func (m *Manager) connect(recursed bool) (err error) {
 
 	m.eioPacketQueue = newPacketQueue()
 	go m.eioPacketQueue.pollAndSend(_eio)
+
+	activeMu.Lock()
+	recorded = true
+	closedMeanwhile := earlyClose
+	activeMu.Unlock()
+	if closedMeanwhile {
+		// Never usable: report the close instead of the open.
+		go m.onClose(earlyReason, earlyErr)
+		return
+	}
 	m.openHandlers.forEach(func(handler *ManagerOpenFunc) { (*handler)() }, true)
 	return
 }
